@@ -4,7 +4,7 @@ For each seed under /verif/seeded, applies patch.diff to a scratch copy of /repo
 checks (default: the seed's own property + all currently claimed properties) and records in meta.json which
 checks catch it: caught_by = [{property, rule, construct_contains}], missed_by = [props]. Scratch copies removed."""
 import json, os, subprocess, sys, tempfile, shutil, concurrent.futures as cf
-ROOT = '/verif'
+ROOT = os.environ.get('VERIF_ROOT', '/verif')
 env = dict(os.environ, GOFLAGS='-mod=mod', GOPROXY='off', GOSUMDB='off', GOTOOLCHAIN='local')
 env.pop('GOWORK', None)
 args = sys.argv[1:]
